@@ -498,6 +498,7 @@ def run_pipeline(res, binary, name, gen_lines=None, vec_path=None, nshards=8, va
                 f.write(json.dumps(e, separators=(",", ":")) + "\n")
     else:
         inp = vec_path
+    native_mismatches = []
     stats = run_harness(binary, inp, outp)
     n = stats["events"]
     if n == 0:
@@ -510,6 +511,9 @@ def run_pipeline(res, binary, name, gen_lines=None, vec_path=None, nshards=8, va
             for l in open(outp):
                 e = json.loads(l)
                 if e.get("m") == 0:
+                    native_mismatches.append((l.rstrip("\n"), e))
+            if not validate:
+                for _l, e in native_mismatches:
                     res.violation("vector-mismatch", strip(e), dict(expected=e.get("x")))
     if post is not None:
         post(outp)
@@ -525,6 +529,12 @@ def run_pipeline(res, binary, name, gen_lines=None, vec_path=None, nshards=8, va
             if tag == "generator-error":
                 raise ToolError(f"generator produced an unusable event: {line[:400]}")
             res.violation(tag, strip(e), dict(index=idx, zone_tags=ztags, event_tags=etags, context=strip(json.loads(zline)) if zline else None))
+        # a vector that did not match natively AND that the trace specification judged as well is reported once, through the trace
+        # verdict above (it carries the zone facts the known-finding matcher needs); one the trace specification let pass is reported here
+        judged = {line.rstrip("\n") for (_i, _t, line, *_r) in tr["bad"]}
+        for l, e in native_mismatches:
+            if l not in judged:
+                res.violation("vector-mismatch", strip(e), dict(expected=e.get("x")))
     if len(res.samples) < 6:
         # actual cases of this run: the first event and the first event that is not a zone-setting one
         with open(outp) as f:
